@@ -20,6 +20,12 @@
 (*   deffn  [name, params, segs]  #define NAME(p1,p2) body                 *)
 (*   undef / ifdef / ifndef [name]     else / endif                        *)
 (*   text   [segs, join]                                                   *)
+(*   include [name, sub, back]   #include "name"; sub = the lines of that  *)
+(*          file (the abstract source is a tree: every include line carries *)
+(*          the content of the file it names, the same file may hang under *)
+(*          several include lines); back = TRUE: the line names a file     *)
+(*          that is being expanded at that point (its content hangs        *)
+(*          further up), sub = <<>>                                        *)
 (* segs is a sequence of physical lines; join = "bs": the physical lines   *)
 (* end in backslash-newline (continuation); join = "bc": they are held     *)
 (* together by a block comment that contains one newline ("bc0": the       *)
@@ -160,22 +166,31 @@ Expand(cx, seq) == LET r == ExpFrom(cx, seq, 1, <<>>, FALSE, <<>>)
                    IN IF "StripWs" \in cx.dev THEN NoWs(r) ELSE r
 
 ---------------------------------------------------------------------------
-(* The state machine.  st = [mac, cond, out, n]                            *)
+(* The state machine.  st = [mac, cond, out, n, open, err]                 *)
+(*   open : names of the files being expanded, innermost last.  A file may *)
+(*          be included any number of times; only the #include of a file   *)
+(*          that is in `open` is a cycle: err, the real one must refuse.   *)
+(*          Each file has its own conditional stack; macros are global.    *)
+(*   n    : index of the line of the MAIN file being processed (lines of   *)
+(*          included files are booked on the #include line of the main one)*)
 (*   cond : stack of [par, own, elsed]; par = the enclosing region is      *)
 (*          active, own = this branch's condition                          *)
 (*   out  : output lines [src |-> index of the source line, lex |-> ..]    *)
 (* Every directive and every line of an inactive region leaves an empty    *)
 (* line (golden files), a continued line is one line.                      *)
-InitState == [mac |-> <<>>, cond |-> <<>>, out |-> <<>>, n |-> 0]
+MainName == "case.sqf"
+InitState == [mac |-> <<>>, cond |-> <<>>, out |-> <<>>, n |-> 0, open |-> <<MainName>>, err |-> FALSE]
 Top(st) == st.cond[Len(st.cond)]
 Active(st) == Len(st.cond) = 0 \/ (Top(st).par /\ Top(st).own)
 CondKinds == {"ifdef", "ifndef", "else", "endif"}
 Body(line) == JoinSegs(CleanSegs(line.segs))
 
+RECURSIVE Apply(_, _, _)
+RECURSIVE RunFrom(_, _, _, _)
 Apply(st, line, dev) ==
     LET act == Active(st)
         eff == act \/ "InactiveDirectivesEffective" \in dev
-        i == st.n + 1
+        i == IF Len(st.open) = 1 THEN st.n + 1 ELSE st.n
         blank == [src |-> i, lex |-> <<>>]
         cx == [mac |-> st.mac, dev |-> dev]
         st1 == [st EXCEPT !.n = i, !.out = Append(st.out, blank)]        \* the common case: one empty line
@@ -198,8 +213,12 @@ Apply(st, line, dev) ==
                            THEN [j \in 1..Len(segs) |-> [src |-> i, lex |-> IF act THEN Expand(cx, segs[j]) ELSE <<>>]]
                            ELSE << [src |-> i, lex |-> IF act THEN Expand(cx, JoinSegs(segs)) ELSE <<>>] >>
               IN [st EXCEPT !.n = i, !.out = st.out \o lines]
+         [] line.k = "include" ->                                          \* Include
+              IF ~act THEN st1                                             \* not obeyed, the file is not even looked at
+              ELSE IF line.name \in Range(st.open) THEN [st1 EXCEPT !.err = TRUE]      \* a cycle
+              ELSE LET inner == RunFrom(line.sub, 1, [st EXCEPT !.n = i, !.cond = <<>>, !.open = Append(st.open, line.name)], dev)
+                   IN [inner EXCEPT !.cond = st.cond, !.open = st.open]
 
-RECURSIVE RunFrom(_, _, _, _)
 RunFrom(src, i, st, dev) == IF i > Len(src) THEN st ELSE RunFrom(src, i + 1, Apply(st, src[i], dev), dev)
 Run(src, dev) == RunFrom(src, 1, InitState, dev)
 Before(src, i) == RunFrom(SubSeq(src, 1, i - 1), 1, InitState, {})        \* reference state in front of line i
@@ -210,6 +229,7 @@ Enabled(st, line) ==
     CASE line.k \in {"ifdef", "ifndef"} -> Len(st.cond) < MaxNest
       [] line.k = "else" -> Len(st.cond) > 0 /\ ~Top(st).elsed
       [] line.k = "endif" -> Len(st.cond) > 0
+      [] line.k = "include" -> line.back = (line.name \in Range(st.open)) \/ ~Active(st)
       [] OTHER -> TRUE
 
 \* What neither the statement nor the golden files fix is not generated and not judged:
@@ -221,7 +241,11 @@ Specified(st, line) ==
 RECURSIVE WellFormedFrom(_, _, _)
 WellFormedFrom(src, i, st) ==
     IF i > Len(src) THEN Len(st.cond) = 0
-    ELSE Enabled(st, src[i]) /\ Specified(st, src[i]) /\ WellFormedFrom(src, i + 1, Apply(st, src[i], {}))
+    ELSE /\ Enabled(st, src[i]) /\ Specified(st, src[i])
+         /\ (src[i].k = "include" /\ Active(st) /\ ~src[i].back) =>        \* the included file is well-formed in the state it is entered in
+                WellFormedFrom(src[i].sub, 1, [st EXCEPT !.cond = <<>>, !.open = Append(st.open, src[i].name),
+                                                          !.n = IF Len(st.open) = 1 THEN st.n + 1 ELSE st.n])
+         /\ WellFormedFrom(src, i + 1, Apply(st, src[i], {}))
 WellFormed(src) == WellFormedFrom(src, 1, InitState)
 
 ---------------------------------------------------------------------------
@@ -245,9 +269,12 @@ DropTrailingEmpty(ls) == IF Len(ls) > 0 /\ ls[Len(ls)] = <<>> THEN DropTrailingE
 \* A directive or a text line continued over k physical lines: the golden files only say that the
 \* pieces are joined; how many empty lines make up for the swallowed newlines is C14's business,
 \* so for such sources empty lines are not compared.
+\* The same holds for #include: the `#line` markers around the included text and the empty lines
+\* next to them are C14's business.
 MultiLineDirective(src) == \E i \in 1..Len(src) :
-    /\ (src[i].k \in {"defobj", "deffn"} \/ (src[i].k = "text" /\ src[i].join = "bs"))
-    /\ Len(src[i].segs) > 1
+    \/ src[i].k = "include"
+    \/ /\ (src[i].k \in {"defobj", "deffn"} \/ (src[i].k = "text" /\ src[i].join = "bs"))
+       /\ Len(src[i].segs) > 1
 NormLines(src, ls) ==
     LET a == [j \in 1..Len(ls) |-> NoWs(ls[j])]
     IN IF MultiLineDirective(src) THEN SelectSeq(a, LAMBDA x : x # <<>>) ELSE DropTrailingEmpty(a)
@@ -346,8 +373,17 @@ RenderLine(line) ==
       [] line.k = "ifndef" -> "#ifndef " \o line.name
       [] line.k = "else" -> "#else"
       [] line.k = "endif" -> "#endif"
+      [] line.k = "include" -> "#include \"" \o line.name \o "\""
       [] line.k = "text" -> SpellSegs(line.segs, IF line.join = "bc" THEN BcText ELSE IF line.join = "bc0" THEN Bc0Text ELSE BsNl)
 RECURSIVE Render(_)
 Render(src) == IF Len(src) = 0 THEN "" ELSE IF Len(src) = 1 THEN RenderLine(src[1])
                ELSE RenderLine(src[1]) \o "\n" \o Render(Tail(src))
+\* the included files of a source: set of [name, text]
+RECURSIVE FilesOf(_)
+FilesOf(src) == UNION { IF src[i].k = "include" /\ ~src[i].back
+                        THEN {[name |-> src[i].name, text |-> Render(src[i].sub)]} \cup FilesOf(src[i].sub)
+                        ELSE {} : i \in 1..Len(src) }
+\* one content per file name
+FilesConsistent(src) == \A f, g \in FilesOf(src) : f.name = g.name => f = g
+HasInclude(src) == \E i \in 1..Len(src) : src[i].k = "include"
 =============================================================================
